@@ -127,7 +127,7 @@ func (s *Scen) syncSites() []syncSite {
 
 func (s *Scen) syncMsgHistories(tier string, rng *rand.Rand) []*History {
 	var out []*History
-	if chain.ForkAtEpoch(s.spec(), 0) < chain.Altair && s.Name != "late" {
+	if chain.ForkAtEpoch(s.spec(), s.spec().SlotToEpoch(s.V.TipSlot)) < chain.Altair {
 		return nil
 	}
 	if s.Name == "latebel" {
@@ -378,7 +378,7 @@ func (s *Scen) honestContrib(site syncSite, subIndex uint64, aggPos int, positio
 func (s *Scen) contribHistories(tier string, rng *rand.Rand) []*History {
 	var out []*History
 	sp := s.spec()
-	if chain.ForkAtEpoch(sp, 0) < chain.Altair && s.Name != "late" {
+	if chain.ForkAtEpoch(sp, sp.SlotToEpoch(s.V.TipSlot)) < chain.Altair {
 		return nil
 	}
 	if s.Name == "latebel" {
